@@ -1,11 +1,12 @@
 """C13-C16 - contracts of Persistence (load, save, start, stop, the saver closures) and of the Gateway context."""
 from pyvc.core import *  # noqa: F403
 from pyvc.spec import Contract, Clause, P, H, CANARY, LoopContract
+from pyvc.core import LibObj, RaiseSig
 
 PQ = "aiomysensors.persistence.Persistence."
 GQ = "aiomysensors.gateway.Gateway."
 PS = TObj("Persistence")
-FS = ["ghost.disk", "ghost.file_exists", "ghost.saves"]
+FS = ["ghost.disk", "ghost.other_disk", "ghost.file_exists", "ghost.saves"]
 JSON_OBJECTS = ["field:dom[str,json]", "field:map[str,json]"]
 
 
@@ -108,12 +109,12 @@ def cancel_save_contract():
 def saver_contract(case):
     """save_on_schedule with a cancellation delivered at one of its await sites (C16/saver-cancellation-table)."""
     if case == "cancel@save":
-        ens, rai = [P("C16/saver-cancellation-table", "False")], {"CancelledError": [H("saver/cancelled-in-save", "True")]}
+        ens, rai = [P("C16/saver-cancellation-table", "False")], {"CancelledError": [P("C16/cancelled-save-leaves-no-task", "g('ghost.tasks') == old(g('ghost.tasks'))")]}
     elif case == "cancel@sleep":
         ens, rai = [P("C16/saver-cancellation-table", "True")], {"PersistenceWriteError": [H("saver/save-failed", "True")]}
     else:
         ens, rai = [H("saver/never-returns", "False")], {"PersistenceWriteError": [H("saver/save-failed", "True")]}
-    ct = Contract(PQ + "start.save_on_schedule", params={"self": PS}, modifies=FS + ["ghost.slept", "ghost.dumped_keys"], ensures=ens, raises=rai, check_wf=False)
+    ct = Contract(PQ + "start.save_on_schedule", params={"self": PS}, modifies=FS + ["ghost.slept", "ghost.dumped_keys", "ghost.tasks"], ensures=ens, raises=rai, check_wf=False)
     ct.closure_params = ["self"]
     ct.optional_outcomes = ("normal", "raise:PersistenceWriteError", "raise:CancelledError")
     ct.raises_only_id = "C16/saver-cancellation-table"
@@ -210,6 +211,10 @@ def c16_units(world):
                 if fr.func is not None and fr.func.qualname.endswith("save_on_schedule"):
                     st["n"] += 1
                     if st["n"] == site:
+                        aw = getattr(I2, "awaiting", None)
+                        if isinstance(aw, LibObj) and aw.kind == "shielded":
+                            # the shielded inner coroutine is not cancelled: it stays behind as a running task
+                            I2.c.heap.set("ghost.tasks", I2.c.heap.get("ghost.tasks", IntS) + 1)
                         raise RaiseSig(I2.make_exc("CancelledError", site=node))
             I.await_hook = hook
         return setup
